@@ -72,6 +72,15 @@ def IsFirstN {υ : Type} (le : υ → υ → Bool) (n : Nat) (all sel : List υ)
   sel.length = min n all.length ∧ (∃ rest, (sel ++ rest).Perm all ∧
     ∀ x ∈ sel, ∀ y ∈ rest, le x y = true) ∧ sel.Pairwise (fun a b => le a b = true)
 
+/-- `d` is the restriction of the sub-directories `subdirs` of the tree `tree` to the utterances
+`ids`: a file is in `d` exactly when it is a file of `tree`, in one of those sub-directories, and
+is THE file `prefix + u + suffix` of some `u ∈ ids`. Nothing about `tree` is assumed (it may hold
+files of utterances that are in no other sub-directory, names that do not match, sub-directories
+that are not in `subdirs`). -/
+def IsRestriction {σ α : Type} (p s : List α) (subdirs : List σ) (tree : List (σ × List α))
+    (ids : List (List α)) (d : List (σ × List α)) : Prop :=
+  ∀ sub f, (sub, f) ∈ d ↔ ((sub, f) ∈ tree ∧ sub ∈ subdirs ∧ ∃ u ∈ ids, f = p ++ u ++ s)
+
 /-- Ids strictly increasing (what a sorted listing of distinct names is). -/
 def StrictSorted {υ β : Type} (lt : υ → υ → Bool) (l : List (υ × β)) : Prop :=
   l.Pairwise (fun a b => lt a.1 b.1 = true)
